@@ -5,6 +5,7 @@ import (
 	"math/rand"
 	"strings"
 	"sync"
+	"time"
 
 	"github.com/jf-tech/omniparser/idr"
 	"github.com/jf-tech/omniparser/transformctx"
@@ -329,7 +330,11 @@ func newPoolTracker() *poolTracker {
 // dumpTree numbers the nodes reachable from the root of n (pre-order) and returns the link arrays.
 func dumpTree(n *idr.Node, pt *poolTracker, limit int) (M, bool) {
 	root := n
-	for root.Parent != nil {
+	for hops := 0; root.Parent != nil; hops++ {
+		if hops > limit { // a cycle of parent links: dump from n itself, TLC rejects the structure
+			root = n
+			break
+		}
 		root = root.Parent
 	}
 	idx := map[*idr.Node]int{}
@@ -443,6 +448,115 @@ func c12Readers(args []string) int {
 			if out.Panic != "" {
 				violation("C12", "panic", "reader panicked: "+out.Panic, M{"sample": s.Name, "input": string(in)})
 			}
+		}
+	}
+	// several owners alive at once: the idr stream readers driven directly, their Read / Release calls interleaved with
+	// each other and with a hand-built tree; after every call the tree of every node still held is audited
+	type owner struct {
+		name string
+		sr   streamReader
+		held *idr.Node
+		done bool
+	}
+	mk := func(kind string) *owner {
+		var sr streamReader
+		var err error
+		switch kind {
+		case "json":
+			sr, err = idr.NewJSONStreamReader(strings.NewReader(miniJSONInput+miniJSONInput), "/*")
+		default:
+			sr, err = idr.NewXMLStreamReader(strings.NewReader(miniXMLInput), "/root/rec")
+		}
+		if err != nil {
+			return nil
+		}
+		return &owner{name: kind, sr: sr}
+	}
+	hungOnce := false
+	for round := 0; round < 40*nmut; round++ {
+		kinds := [][]string{{"json", "json"}, {"json", "xml"}, {"xml", "xml"}, {"xml", "json"}}[round%4]
+		owners := []*owner{mk(kinds[0]), mk(kinds[1])}
+		if owners[0] == nil || owners[1] == nil {
+			fmt.Println("error: cannot create stream readers")
+			return 3
+		}
+		var hand []*idr.Node // detached roots built by a third owner
+		audit := func(what string) {
+			var nodes []*idr.Node
+			for _, o := range owners {
+				if o.held != nil {
+					nodes = append(nodes, o.held)
+				}
+			}
+			nodes = append(nodes, hand...)
+			for _, n := range nodes {
+				ev, ok := dumpTree(n, pt, 400)
+				if !ok {
+					continue
+				}
+				ev["tr"] = len(events) + 1
+				ev["sample"] = fmt.Sprintf("interleaved %v round %d after %s", kinds, round, what)
+				events = append(events, ev)
+				sum.Traces++
+				sum.eval(true, M{"r": round, "w": what, "n": ev["n"]})
+			}
+		}
+		for step := 0; step < 24; step++ {
+			o := owners[r.Intn(2)]
+			var pv string
+			var hung bool
+			switch {
+			case r.Intn(5) == 0: // the third owner acquires and attaches a few nodes, or gives a tree back
+				if len(hand) > 0 && r.Intn(2) == 0 {
+					idr.RemoveAndReleaseTree(hand[len(hand)-1])
+					hand = hand[:len(hand)-1]
+				} else {
+					root := idr.CreateNode(idr.ElementNode, "h")
+					for k := r.Intn(3); k >= 0; k-- {
+						idr.AddChild(root, idr.CreateNode(idr.TextNode, "t"))
+					}
+					hand = append(hand, root)
+				}
+				audit("hand-built tree")
+			case o.held != nil && r.Intn(2) == 0:
+				pv, hung = guarded(5*time.Second, func() { o.sr.Release(o.held) })
+				o.held = nil
+				if !hung {
+					audit(o.name + ".Release")
+				}
+			case !o.done:
+				// Read (with or without a Release of the node still held: "even if Release is not called the next Read releases it")
+				pv, hung = guarded(5*time.Second, func() {
+					n, err := o.sr.Read()
+					o.held = n
+					if err != nil {
+						o.held, o.done = nil, true
+					}
+				})
+				if !hung {
+					audit(o.name + ".Read")
+				}
+			}
+			if hung {
+				violation("C12", "hang-interleaved", "interleaved readers: a Read / Release call did not return within 5 s (node links form a cycle?)", M{"round": round, "kinds": kinds})
+				hungOnce = true
+				break
+			}
+			if pv != "" {
+				violation("C12", "panic-interleaved", "interleaved readers: "+pv, M{"round": round, "kinds": kinds})
+				break
+			}
+		}
+		if hungOnce {
+			break // a goroutine is still spinning inside the package; nothing further can be trusted
+		}
+		for _, o := range owners {
+			if o.held != nil {
+				o.sr.Release(o.held)
+			}
+		}
+		for _, h := range hand {
+			idr.RemoveAndReleaseTree(h)
 		}
 	}
 	for i, e := range pt.errs {
